@@ -303,7 +303,7 @@ theorem deliverProof_cases (fixed : Bool) (s : State) (m : MsgProof) (e : ProofE
             (deliverProof fixed s m e).state =
               { s with claims := s.claims.del (deleteKey fixed m), supply := s.supply + e.reward } ∧
             (deliverProof fixed s m e).events = [.minted m.key c e.reward, .deleted (deleteKey fixed m)]) ∨
-           (m.leaf = .challenge ∧
+           (m.leaf = .challenge ∧ fixed = true ∧
             (deliverProof fixed s m e).state =
               { s with claims := s.claims.del (deleteKey fixed m), supply := s.supply - e.challengeBurn + e.reward } ∧
             (deliverProof fixed s m e).events =
@@ -354,8 +354,11 @@ theorem deliverProof_cases (fixed : Bool) (s : State) (m : MsgProof) (e : ProofE
   unfold executeProof
   cases hk : m.leaf with
   | relay => simp
-  | challenge => simp
-
+  | challenge =>
+    by_cases hf : fixed = true
+    · subst hf; simp
+    · have hf' : fixed = false := by simpa using hf
+      subst hf'; simp
 
 /-! ### The store follows the events -/
 
@@ -370,6 +373,15 @@ theorem deleteKey_typed (fixed : Bool) (m : MsgProof) (h : fixed = true ∨ m.le
     · simp only [Bool.false_eq_true, if_false, h]
     · simp
 
+theorem deleteKey_relay (fixed : Bool) (m : MsgProof) (hl : m.leaf = .relay)
+    (h : fixed = true ∨ (m.leaf = .relay → m.key.et = 1)) : deleteKey fixed m = m.key := by
+  apply deleteKey_typed
+  rcases h with h | h
+  · exact Or.inl h
+  · right
+    rw [hl, h hl]
+    rfl
+
 theorem step_WF (fixed : Bool) (s : State) (op : Op) (h : WF s.claims) : WF (step fixed s op).1.claims := by
   cases op with
   | begin => exact beginBlock_WF s h
@@ -382,7 +394,7 @@ theorem step_WF (fixed : Bool) (s : State) (op : Op) (h : WF s.claims) : WF (ste
     simp only [step]
     rcases deliverProof_cases fixed s m e with ⟨h1, _, _⟩ | ⟨c, _, _, _, _, _, _, _, _, _, hr⟩
     · rw [h1]; exact h
-    · rcases hr with ⟨_, _, h1, _⟩ | ⟨_, _, _, _, ⟨_, h1, _⟩ | ⟨_, h1, _⟩⟩ <;> rw [h1] <;> exact WF_del _ _ h
+    · rcases hr with ⟨_, _, h1, _⟩ | ⟨_, _, _, _, ⟨_, h1, _⟩ | ⟨_, _, h1, _⟩⟩ <;> rw [h1] <;> exact WF_del _ _ h
 
 theorem step_follow (fixed : Bool) (s : State) (op : Op) (k : ClaimKey) (h : WF s.claims) :
     Claims.get (step fixed s op).1.claims k = replay k (Claims.get s.claims k) (step fixed s op).2 := by
@@ -406,7 +418,7 @@ theorem step_follow (fixed : Bool) (s : State) (op : Op) (k : ClaimKey) (h : WF 
       · simp [hk, get_del_ne _ hk]
     rcases deliverProof_cases fixed s m e with ⟨h1, h2, _⟩ | ⟨c, _, _, _, _, _, _, _, _, _, hr⟩
     · rw [h1, h2]; rfl
-    · rcases hr with ⟨_, _, h1, h2⟩ | ⟨_, _, _, _, ⟨_, h1, h2⟩ | ⟨_, h1, h2⟩⟩ <;> rw [h1, h2] <;>
+    · rcases hr with ⟨_, _, h1, h2⟩ | ⟨_, _, _, _, ⟨_, h1, h2⟩ | ⟨_, _, h1, h2⟩⟩ <;> rw [h1, h2] <;>
         simp only [replay, List.foldl_cons, List.foldl_nil, Event.apply] <;> exact hdel _
 
 theorem run_WF (fixed : Bool) (s : State) (ops : List Op) (h : WF s.claims) : WF (run fixed s ops).1.claims := by
@@ -499,25 +511,28 @@ theorem step_count (fixed : Bool) (s : State) (op : Op) (k : ClaimKey) (hty : fi
         omega
   | proof m e =>
     simp only [step]
-    have hdk : deleteKey fixed m = m.key := deleteKey_typed fixed m (by
-      rcases hty with h | h
-      · exact Or.inl h
-      · exact Or.inr h)
     rcases deliverProof_cases fixed s m e with ⟨h1, h2, _⟩ | ⟨c, hg, _, _, _, _, _, _, _, _, hr⟩
     · rw [h1, h2]; simp [mints, accepts]
     · have hlive : live s.claims m.key = 1 := by simp [live, hg]
-      rcases hr with ⟨_, _, h1, h2⟩ | ⟨_, _, _, _, ⟨_, h1, h2⟩ | ⟨_, h1, h2⟩⟩ <;> rw [h1, h2] <;>
-        simp only [mints, accepts, hdk]
-      · have := live_del_le s.claims k m.key
-        omega
-      all_goals
-        by_cases hk : m.key = k
+      have fin : ∀ dk : ClaimKey, dk = m.key →
+          (if m.key = k then 1 else 0) + live (Claims.del s.claims dk) k ≤ live s.claims k := by
+        intro dk hdk
+        subst hdk
+        by_cases hk : dk = k
         · subst hk
           simp only [if_true, live_del_self, hlive]
           omega
         · simp only [if_neg hk]
-          have := live_del_le s.claims k m.key
+          have := live_del_le s.claims k dk
           omega
+      rcases hr with ⟨_, _, h1, h2⟩ | ⟨_, _, _, _, ⟨hl, h1, h2⟩ | ⟨_, hf, h1, h2⟩⟩ <;> rw [h1, h2] <;>
+        simp only [mints, accepts]
+      · have := live_del_le s.claims k m.key
+        omega
+      · have := fin _ (deleteKey_relay fixed m hl hty)
+        omega
+      · have := fin _ (deleteKey_typed fixed m (Or.inl hf))
+        omega
 
 theorem WellTyped_cons (op : Op) (ops : List Op) : WellTyped (op :: ops) ↔ op.typed ∧ WellTyped ops := by
   simp [WellTyped]
@@ -558,7 +573,7 @@ theorem step_total (fixed : Bool) (s : State) (op : Op) (k : ClaimKey) (R : Int)
     simp only [step]
     rcases deliverProof_cases fixed s m e with ⟨_, h2, _⟩ | ⟨c, _, _, _, _, _, _, _, _, _, hr⟩
     · rw [h2]; simp [mintedTotal, mints]
-    · rcases hr with ⟨_, _, _, h2⟩ | ⟨_, _, _, _, ⟨_, _, h2⟩ | ⟨_, _, h2⟩⟩ <;> rw [h2] <;>
+    · rcases hr with ⟨_, _, _, h2⟩ | ⟨_, _, _, _, ⟨_, _, h2⟩ | ⟨_, _, _, h2⟩⟩ <;> rw [h2] <;>
         simp only [mintedTotal, mints]
       · simp
       all_goals
@@ -598,7 +613,7 @@ theorem step_minted (fixed : Bool) (s : State) (op : Op) (k : ClaimKey) (c : Cla
     simp only [step] at h
     rcases deliverProof_cases fixed s m e with ⟨_, h2, _⟩ | ⟨c', hg, hd, hv, ha, h1, h2', h3, h4, h5, hr⟩
     · rw [h2] at h; simp at h
-    · rcases hr with ⟨_, _, _, h2⟩ | ⟨hm, h6, hl, _, ⟨_, _, h2⟩ | ⟨_, _, h2⟩⟩ <;> rw [h2] at h <;> simp at h
+    · rcases hr with ⟨_, _, _, h2⟩ | ⟨hm, h6, hl, _, ⟨_, _, h2⟩ | ⟨_, _, _, h2⟩⟩ <;> rw [h2] at h <;> simp at h
       all_goals
         obtain ⟨rfl, rfl, rfl⟩ := h
         refine ⟨m, e, rfl, rfl, hg, rfl, ?_⟩
